@@ -515,12 +515,19 @@ func (el *eventloop) msgTimeout() {
 			v.Error = codec.ErrMsgRequestTimeout
 			v.Done = true
 		}
+		// the timeout error is the reply of this request: it takes the request's place in the
+		// client's queue and leaves with the other replies, in order
 		msg.Error = codec.ErrMsgRequestTimeout
+		msg.RspBody = append(msg.RspBody[:0], msg.Error.Bytes()...)
+		msg.FragDoneNumber = len(msg.Body)
+		msg.Done = true
 		if c == nil || !c.IsOpened() {
 			logging.Warnf("[%dm|%df][%dc] try to send request timeout but client already closed", frag.MsgId(), frag.Id, frag.OwnerFd())
 			continue
 		}
-		c.AsyncWrite(codec.ErrMsgRequestTimeout.Bytes(), nil)
+		if cc, ok := c.(*conn); ok {
+			_ = el.flushDone(cc)
+		}
 		logging.Warnf("[%dm|%df][%dc] request timeout, consider raising config '[proxy]timeout=%d', send res: %s", frag.MsgId(), frag.Id, frag.OwnerFd(), el.engine.opts.RedisRequestTimeout, codec.ErrMsgRequestTimeout.ShortString())
 	}
 }
